@@ -77,6 +77,8 @@ def gen_desc(rng, tier, force=None):
             visible[n] = typ
             attrs.append([n, form, dk, ini, rep, cmp_, typ])
         c = {"attrs": attrs, "key": None, "frozen": False, "new": rng.random() < 0.3}
+        if rng.random() < 0.35:  # decorator-level do_not_copy: names visible in this class (own or inherited)
+            c["dnc"] = sorted(rng.sample(sorted(visible), rng.randint(1, min(2, len(visible)))))
         classes.append(c)
     # a key needs a default so that C() works: only plain int attributes of the class itself
     for c in classes:
@@ -178,6 +180,8 @@ def run_twin(job):
     import c19_impl as I
     import c19_twin as T
     I.setup()
+    if "dnc" in job[0]:
+        return T.dnc_job(job)
     return T.job(job)
 
 
@@ -194,6 +198,11 @@ def twin_stage(chk, rng, pool, quick):
         must = [j for j in jobs if len(j[0]["bases"]) == 2 and j[1][0] == "inst" and not j[0]["own"]]
         rest = [j for j in jobs if j not in must]
         jobs = must + rng.sample(rest, 200)
+    dnc = [(sh, sq) for sh in T.dnc_shapes() for sq in T.dnc_sequences(sh)]
+    if quick:
+        dnc = [j for j in dnc if len(j[0]["dnc"]) == 2] + rng.sample([j for j in dnc if len(j[0]["dnc"]) == 3], 40)
+    n_bases = len(jobs)
+    jobs = jobs + dnc
     res = list(pool.map(run_twin, jobs, chunksize=8))
     keep = [(j, r) for j, r in zip(jobs, res) if r["eager_ok"]]
     bad, logs = coq_eval("C19", PRELUDE, "check_twin", [c_twin(r) for _, r in keep], shard=150, tag="tw",
@@ -201,21 +210,27 @@ def twin_stage(chk, rng, pool, quick):
     seen = set()
     for i, code in sorted(bad):
         (sh, sq), r = keep[i]
-        sig = (tuple(sh["bases"]), sh["own"])
-        if sig in seen or len(seen) >= 3:
+        isd = "dnc" in sh
+        sig = ("dnc", len(sh["dnc"])) if isd else (tuple(sh["bases"]), sh["own"])
+        if sig in seen or len(seen) >= 4:
             continue
         seen.add(sig)
         diff = [(a, b) for a, b in zip(r["eager_raw"], r["lazy_raw"]) if a != b][:2]
-        chk.violation(f"lazily decorated hierarchy differs from its eager twin: class S({', '.join(sh['bases'])}) "
-                      f"own __new__={sh['own']} uses={sq}: eager/lazy first differences {diff}",
-                      {"kind": "twin", "shape": sh, "uses": sq, "source": T.render(sh, False),
+        head = (f"chain with decorator do_not_copy={sh['dnc']}" if isd else
+                f"class S({', '.join(sh['bases'])}) own __new__={sh['own']}")
+        chk.violation(f"lazily decorated hierarchy differs from its eager twin: {head} "
+                      f"uses={sq}: eager/lazy first differences {diff}",
+                      {"kind": "twin", "shape": sh, "uses": sq,
+                       "source": T.dnc_render(sh, False) if isd else T.render(sh, False),
                        "eager": r["eager_raw"], "lazy": r["lazy_raw"], "code": 2,
                        "replay": "bin/check C19 --replay <this file>"},
                       sig={"code": 2, "generator": "twin"}, no_input=False)
     for lg in logs:
         chk.violation("twin evaluation failed: " + lg[-500:], {"kind": "coq-eval", "log": lg}, no_input=True)
     return {"twin_cases": len(jobs), "twin_valid": len(keep), "twin_disagreements": len(bad),
-            "twin_base_orders": sorted({",".join(j[0]["bases"]) for j in jobs})}
+            "two_base_cases": n_bases, "do_not_copy_chain_cases": len(dnc),
+            "do_not_copy_decorator_values": sorted({repr(j[0]["dnc"]) for j in dnc}),
+            "twin_base_orders": sorted({",".join(j[0]["bases"]) for j in jobs[:n_bases]})}
 
 
 def warm(_):
